@@ -694,9 +694,12 @@ func ZeroOfRecv[C ~<-chan T, T any](ch C) (z T) { return }
 // Select is what a select statement with several communication cases becomes under
 // simulation: each try is a non-blocking attempt of one case. The order in which they are
 // tried is derived from the run's seed, the calling actor and a per-actor counter, so the
-// choice among several ready cases is the simulator's and replays exactly. Returns the
-// index of the case that went through, or -1 for the default case.
-func Select(site string, hasDefault bool, tries ...func() bool) int {
+// choice among several ready cases is the simulator's and replays exactly. When no case
+// is ready, block (a real blocking select over the same cases, nil if the statement has a
+// default) decides: the goroutine blocks durably, as the original statement would, and is
+// woken by the one event that makes a case ready. Returns the index of the case that
+// went through, or -1 for the default case.
+func Select(site string, block func() int, tries ...func() bool) int {
 	s := cur.Load()
 	if s == nil {
 		panic("simrt.Select called without a running simulation")
@@ -712,16 +715,13 @@ func Select(site string, hasDefault bool, tries ...func() bool) int {
 	}
 	s.mu.Unlock()
 	r := RNG{s: mix64(s.opt.Seed) ^ HashString("select:"+name+"@"+site) ^ mix64(ctr)}
-	order := r.Perm(len(tries))
-	for {
-		for _, i := range order {
-			if tries[i]() {
-				return i
-			}
+	for _, i := range r.Perm(len(tries)) {
+		if tries[i]() {
+			return i
 		}
-		if hasDefault {
-			return -1
-		}
-		s.yield(site+":blocked", "")
 	}
+	if block == nil {
+		return -1
+	}
+	return block()
 }
